@@ -105,6 +105,8 @@ func tryReplay(P *Program, fr *FuncResult, s *SiteResult, verifDir string) *Repl
 	return r
 }
 
+var cexSearches = 0
+
 var cexMode = false
 
 // boundedMode (with cexMode): the bounded stand-in of check.go - loops unrolled without unwinding assertion, but
@@ -126,8 +128,16 @@ func searchConcreteModel(P *Program, fr *FuncResult, s *SiteResult) (model map[s
 			model = nil
 		}
 	}()
+	// budget: at most 3 searches per run, 15 s and 1500 paths each (the search is a convenience, not the verdict)
+	cexSearches++
+	if cexSearches > 3 {
+		return nil
+	}
 	cexMode = true
-	defer func() { cexMode = false }()
+	savedPaths := maxPathsDefault
+	maxPathsDefault = 1500
+	genDeadline = time.Now().Add(15 * time.Second)
+	defer func() { cexMode = false; maxPathsDefault = savedPaths; genDeadline = time.Time{} }()
 	// bit-precise search: everything in bit-vector mode
 	spec := *fr.Ex.spec
 	spec.Mode = ModeBV
